@@ -38,6 +38,16 @@ def gen_cases(rng, tier):
             ops += [["set", a], ["set", a], ["observe"], ["tables"], ["svd"], ["set", b], ["set", b], ["observe"], ["tables"], ["svd"]]
         c["ops"] = ops
         cases.append(c)
+    # user thresholds below machine epsilon on problems whose singular values all lie below machine epsilon too (tiny weights):
+    # the configured threshold decides, not the resolution of the scalar type
+    for j in range(8 if tier == "quick" else 120):
+        c = gen_problem(rng, quant=(8 if j % 2 else None), family=["exp2c", "exp1l", "rat2", "gaussc"][j % 4],
+                        scalar=("f32" if j % 4 == 3 else "f64"))
+        scale_down_for_tiny_eps(rng, c)
+        m = c["meta"]
+        a = [hx(v, c["scalar"]) for v in distinct_params(rng, m["P"], *m["range"])]
+        c["ops"] = [["observe"], ["tables"], ["svd"], ["set", a], ["observe"], ["tables"], ["svd"]]
+        cases.append(c)
     return cases
 
 
@@ -100,7 +110,7 @@ def linearity_twins(run, binp, rng, cases, tier):
 def main(tier, seed, replay=None):
     run = Run("C01", tier, seed, "proof")
     rng = random.Random(seed)
-    proof_obligations(run, "C01")
+    proof_obligations(run, "C01", extra_pins=("E2E",))
     binp = build_harness("dev")
     workdir = os.path.join(COQ, "run", "C01")
     cases = gen_cases(rng, tier)
